@@ -440,8 +440,9 @@ def u_overlay_enter_exit(c):
     c.prove("exit/LIFO-restores-previous", var.value is prev)
 
 
-@unit("BaseOverlay.exit-nonlifo", ["C05", "C09"], [O + ":BaseOverlay.__enter__", O + ":BaseOverlay.__exit__", O + ":HandlerCollection.plus"], mode="bounded",
-      bound="overlay with 1-2 handlers, 0-1 pairs installed before it, 1-2 pairs installed after it (all orders of exit)")
+@unit("BaseOverlay.exit-nonlifo", ["C05", "C09", "C02", "C17"], [O + ":BaseOverlay.__enter__", O + ":BaseOverlay.__exit__", O + ":HandlerCollection.plus"], mode="bounded",
+      bound="overlay with 1-2 handlers, 0-1 pairs installed before it, 1-2 pairs installed after it (all orders of exit); the later / earlier "
+            "handlers may carry the very same (interned) selector object as an own handler")
 def u_overlay_exit_nonlifo(c):
     """Exit in any order: when the current collection is not the one this overlay installed (another overlay was activated
     afterwards and is still active), __exit__ leaves exactly the pairs that were current minus its own, in order; the
@@ -453,6 +454,12 @@ def u_overlay_exit_nonlifo(c):
     later_h = [mkh(f"later{i}") for i in range(1 + c.choose(2, "later"))]
     had = c.choose(2, "previous")
     prev_pair = (SymObj("psel", Val.ref(z3.IntVal(c.new_id()))), mkh("prev"))
+    if c.choose(2, "same-selector"):
+        # selectors are interned: two probes given the same selector text carry the very same selector object; what belongs
+        # to an overlay is decided by the identity of its HANDLERS, never by their selectors
+        later_h[0].attrs["selector"] = own[0].attrs["selector"]
+        prev_pair[1].attrs["selector"] = own[0].attrs["selector"]
+        prev_pair = (own[0].attrs["selector"], prev_pair[1])
     prev = mk_obj(it, O, "HandlerCollection", handler_pairs=[prev_pair]) if had else None
     var.value = prev
     ov1 = mk_obj(it, O, "BaseOverlay", handlers=list(own))
@@ -559,4 +566,36 @@ def u_proceed_enter_exit(c):
         st, r = run(it, it.getattr(p, "__exit__"), args)
         c.prove("exit/no-raise", st == "ok")
         c.prove("exit/interactor.exit-once", len(itor.attrs["_exits"]) == 1)
-        c.prove("exit/non-LIFO-does-not-disturb-surrounding-handlers", var.value is X, only=["C09"])
+        c.prove("exit/non-LIFO-does-not-disturb-surrounding-handlers", var.value is X, only=["C09", "C05"])
+
+
+@unit("proceed.exit-propagates", ["C01", "C06", "C07", "C02"], [O + ":proceed.__exit__"], replay=_replay_file("c01_exit_propagates.py"),
+      assumed=["Python's with statement: the exception that ended the block propagates iff __exit__ returns a false value"])
+def u_proceed_exit_propagates(c):
+    """Every instrumented body runs inside `with proceed(fn)`; the transformer's contract relies on that block being
+    transparent for exceptions.  Contract of proceed.__exit__: whatever interactor.exit() returns (arbitrary value, by
+    contract of nothing but its name), the result of __exit__ is false, so an exception raised by the body propagates."""
+    it = Interp(c)
+    HC, var = _current_var(it)
+    fn = SymObj("fn", Val.ref(z3.IntVal(c.new_id())))
+    ret = c.val("interactor_exit_result")
+
+    def proceed_summary(it_, f, args, kwargs):
+        s = SummaryFn("exit", lambda it__, a, k: ret)
+        s.is_method = True
+        itor = SymObj("itor", Val.ref(z3.IntVal(it_.ctx.new_id())), attrs={"exit": s})
+        return (itor, mk_obj(it_, O, "HandlerCollection", handler_pairs=[]))
+
+    it.policies[PROCEED] = proceed_summary
+    var.value = None
+    p = it.call(it.get_global(O, "proceed"), [fn], {})
+    st, _ = run(it, it.getattr(p, "__enter__"), [])
+    c.require(st == "ok")
+    exc = c.choose(2)
+    args = [None, None, None] if not exc else [ValueError, ValueError("boom"), None]
+    st, r = run(it, it.getattr(p, "__exit__"), args)
+    c.prove("exit/no-raise", st == "ok")
+    if st != "ok":
+        return
+    tt = it.truth_term(r)
+    c.prove("exit/result-is-false-whatever-interactor.exit-returns", (tt is False) if isinstance(tt, bool) else z3.Not(tt))
